@@ -365,3 +365,34 @@ def rule_global_state(ctx: Ctx, prog: Program, extra_dir_positive_control: Optio
     # positive control: the rule must fire on the committed control sample
     if extra_dir_positive_control:
         pass
+
+
+def rule_reinit(ctx: Ctx, prog: Program) -> None:
+    """R-REINIT: constructing a solver derives the problem's arrays afresh, unconditionally.  A problem object may be edited between two
+    solver constructions (propagators replaced, offsets changed) without any size changing; a constructor that skips init() when the
+    derived arrays 'look present' silently solves the old problem."""
+    from ..interp import Interp, NONE, View, as_view
+
+    ctx.rule("R-REINIT")
+    fn = prog.func(f"{prog.package}.solvers.solver", "Solver.__init__")
+    ctx.fn(fn.fq)
+    it = Interp(prog, no_inline={"init": None})
+    res = it.run(fn)
+    n = 0
+    pname = fn.params[1] if len(fn.params) > 1 else "problem"
+    patom = it.scalar(res[0].state, View(pname, ())) if res else None
+    for r in res:
+        if r.outcome != "return":
+            continue
+        isnone = r.state.facts.decide(("is", patom, NONE)) if patom is not None else None
+        inits = [e for e in r.events if e.kind in ("mcall", "call") and e.name and e.name.split(".")[-1] == "init" and (e.recv is None or as_view(e.recv) == View(pname, ()))]
+        if isnone is True:
+            continue
+        n += 1
+        if len(inits) == 1:
+            ctx.ok("R-REINIT", "Solver.__init__: problem.init() is called on every path with a problem", sample={"line": inits[0].line})
+        else:
+            ctx.violation("R-REINIT", fn.path, "Solver.__init__", "init-skipped", fn.loc(),
+                          f"Solver.__init__ has a path with a problem on which problem.init() is called {len(inits)} time(s): the arrays derived from "
+                          "the propagator list (wake-up table, per-constraint caches) must be rebuilt for every solver, whatever state an earlier solver left")
+    ctx.floor("R-REINIT:paths-with-problem", n, 1)
